@@ -83,6 +83,8 @@ def tasks(tier, seed):
         T.append(('isolation', json.dumps(c, sort_keys=True)))
     T.append(('lengths', json.dumps(dict(dt=0.25, prob='dahlquist', n=1, qd='LU', sweeper='generic_implicit', M=[2], NP=4, maxiter=1, restol=-1.0, blocks=1, jac=False, postrun=True), sort_keys=True)))
     T.append(('lengths', json.dumps(dict(dt=0.25, prob='dahlquist', n=1, qd='LU', sweeper='generic_implicit', M=[2, 1], NP=3, maxiter=1, restol=-1.0, blocks=1, postrun=True), sort_keys=True)))
+    T.append(('sweeper_params', json.dumps(dict(base_, M=[3], NP=1), sort_keys=True)))
+    T.append(('sweeper_params', json.dumps(dict(base_, M=[2], NP=2, jac=False, sweeper='imex_1st_order'), sort_keys=True)))
     for c in (dict(base_, M=[2], NP=2, jac=False, maxiter=1), dict(base_, M=[2, 1], NP=2, maxiter=1), dict(base_, M=[2], NP=3, maxiter=1, dt=0.125)):
         T.append(('splitodd', json.dumps(c, sort_keys=True)))
     T.append(('float', json.dumps(cfgs(tier)[1], sort_keys=True)))
@@ -237,6 +239,22 @@ def scenario_case(rep, scenario, cfg):
             after = {k: v for k, v in shared['cp'].items() if k != 'hook_class'}
             out['params_unchanged'] = (before == after, before, after)
             return [((u1, s1), (u2, s2))]
+        if scenario == 'sweeper_params':
+            # ONE sweeper-parameter dictionary (no per-level lists) used for this configuration, then for a controller with ANOTHER sweeper class (a
+            # Runge-Kutta sweeper, which rewrites several of its parameters), then for this configuration again: same result as with a dictionary of its own
+            from pySDC.implementations.sweeper_classes.Runge_Kutta import RK4
+
+            _, u1, s1, _ = run_once(c, cfg, xs=xs)
+            shared = {}
+            cfgS = dict(cfg, _sw_obj=shared)
+            run_once(c, cfgS, xs=xs)
+            try:
+                wr.build(dict(cfgS, _sweeper_class=RK4))
+                _, u2, s2, _ = run_once(c, cfgS, xs=xs)
+            except Exception as e:
+                out['raised'] = f'{type(e).__name__}: {e}'
+                return []
+            return [((u1, s1), (u2, s2))]
         if scenario == 'lengths':
             # runs of different lengths on one controller (blocks shorter than the number of processes leave steps outside the block): a run repeated
             # after them gives what it gives on a fresh controller, statistics of hooks keyed on the last step included
@@ -288,6 +306,14 @@ def scenario_case(rep, scenario, cfg):
     if 'params_unchanged' in out and not out['params_unchanged'][0]:
         # (not a clause of the property by itself -- only the results below are judged -- but worth a note in the evidence)
         rep.note(f'{name}: building the controllers changed the shared controller parameters: {out["params_unchanged"][1]} -> {out["params_unchanged"][2]}')
+    if out.get('raised'):
+        rep.replayed += 1
+        try:
+            float_runs(scenario, cfg)
+            rep.unreproduced(name, out['raised'])
+        except Exception as e:
+            rep.violation(f'{PID}/{scenario}-raises', f'{name}: a controller cannot be built / run after another controller used the same parameter dictionary: {type(e).__name__}: {e}',
+                          {'task': [scenario], 'cfg': cfg, 'raises': f'{type(e).__name__}: {e}'})
     for i, p in enumerate(paths):
         A_ = [z3.And(x >= -1, x <= 1) for x in xs] + list(p.assume) + list(p.pc)
         for j, (Ares, Bres) in enumerate(p.result):
@@ -365,6 +391,16 @@ def float_runs(scenario, cfg, x=0.7321):
         cB.run(uB, 0.0, cfg['dt'] * (cfg['NP'] + 1))
         c2, _ = wr.build(cS, float_mode=True)
         _, b, _ = go(c2)
+        return [(a, b)]
+    if scenario == 'sweeper_params':
+        from pySDC.implementations.sweeper_classes.Runge_Kutta import RK4
+
+        _, a, _ = go()
+        shared = {}
+        cS = dict(cfg, _sw_obj=shared)
+        go(wr.build(cS, float_mode=True)[0])
+        wr.build(dict(cS, _sweeper_class=RK4), float_mode=True)
+        _, b, _ = go(wr.build(cS, float_mode=True)[0])
         return [(a, b)]
     if scenario == 'lengths':
         # (end value followed by the number of non-timing statistics entries, so that surplus records show up in the comparison)
@@ -451,7 +487,12 @@ def replay(path):
         print(r.violations[0]['what'] if bad else 'same result alone and after other controllers')
         print('REPRODUCED' if bad else 'not reproduced')
         return 1 if bad else 0
-    pairs = float_runs(d['task'][0], d['cfg'])
+    try:
+        pairs = float_runs(d['task'][0], d['cfg'])
+    except Exception as e:
+        print('the scenario raises on the real float classes:', type(e).__name__, e)
+        print('REPRODUCED' if d.get('raises') else 'harness problem')
+        return 1 if d.get('raises') else 2
     bad = any(not np.array_equal(a, b) for a, b in pairs)
     print([(a.tolist(), b.tolist()) for a, b in pairs])
     print('REPRODUCED' if bad else 'not reproduced')
